@@ -60,16 +60,19 @@ type Solver struct {
 	log       *os.File
 	buf       strings.Builder
 	LastErr   string
+	Purpose   string
 }
+
+var debugQ = os.Getenv("GOSYM_DEBUG_Q") != ""
 
 func solverCmd(kind string) (string, []string) {
 	switch kind {
-	case "z3-new":
-		return "z3-new", []string{"-in"}
+	case "z3-old", "z3":
+		return "z3", []string{"-in"}
 	case "cvc5":
 		return "cvc5", []string{"--incremental", "--produce-models", "--lang=smt2", "--fp-exp"}
-	default:
-		return "z3", []string{"-in"}
+	default: // z3 5.1.0: decides in ~1 s the BV problems on which 4.8.12 times out
+		return "z3-new", []string{"-in"}
 	}
 }
 
@@ -257,17 +260,23 @@ func (s *Solver) Check(assertions []*Term, wantModel bool, extraVars []*Term) (R
 	} else {
 		// run the full preprocessing/bit-blasting pipeline on the current goal: the
 		// plain incremental core is orders of magnitude slower on these BV problems
-		s.buf.WriteString("(check-sat-using default)\n")
+		fmt.Fprintf(&s.buf, "(check-sat-using (try-for default %d))\n", s.TimeoutMs)
 	}
 	s.send(s.buf.String())
 	res := Unknown
 	s.LastErr = ""
+	proc := s.cmd.Process
+	wd := time.AfterFunc(time.Duration(s.TimeoutMs+15000)*time.Millisecond, func() { proc.Kill() })
+	defer wd.Stop()
 	for {
 		l, err := s.readLine()
 		if err != nil {
-			s.LastErr = "solver died: " + err.Error()
+			s.LastErr = "solver died or was killed by the watchdog: " + err.Error()
+			fmt.Fprintf(os.Stderr, "  query #%d: solver killed after %.1fs, %d assertions, %d term nodes [%s]\n", s.Stats.Queries+1, time.Since(t0).Seconds(), len(assertions), TermSize(assertions...), s.Purpose)
 			s.Stats.Errors++
+			s.cmd.Wait()
 			s.cmd = nil
+			s.Stats.Dur += time.Since(t0)
 			s.Stats.Queries++
 			s.Stats.Unknown++
 			return Unknown, nil
@@ -321,6 +330,9 @@ func (s *Solver) Check(assertions []*Term, wantModel bool, extraVars []*Term) (R
 	}
 	s.send("(pop 1)\n")
 	d := time.Since(t0)
+	if debugQ || d > 20*time.Second {
+		fmt.Fprintf(os.Stderr, "  query #%d: %v in %.2fs, %d assertions, %d term nodes [%s]\n", s.Stats.Queries+1, res, d.Seconds(), len(assertions), TermSize(assertions...), s.Purpose)
+	}
 	s.Stats.Queries++
 	s.Stats.Dur += d
 	if d > s.Stats.MaxQuery {
